@@ -1,0 +1,42 @@
+//go:build verif
+
+/*
+Copyright The ORAS Authors.
+Licensed under the Apache License, Version 2.0 (the "License");
+you may not use this file except in compliance with the License.
+You may obtain a copy of the License at
+
+http://www.apache.org/licenses/LICENSE-2.0
+
+Unless required by applicable law or agreed to in writing, software
+distributed under the License is distributed on an "AS IS" BASIS,
+WITHOUT WARRANTIES OR CONDITIONS OF ANY KIND, either express or implied.
+See the License for the specific language governing permissions and
+limitations under the License.
+*/
+
+// Package verifhook provides named observation points for runtime
+// verification. The points are compiled in only with the build tag "verif".
+package verifhook
+
+import "sync/atomic"
+
+// Enabled reports whether the hooks are compiled in.
+const Enabled = true
+
+// Handler is invoked at every hook point when set.
+var Handler atomic.Pointer[func(point, key string)]
+
+// At reports that the execution reached the named point.
+func At(point string) {
+	if h := Handler.Load(); h != nil {
+		(*h)(point, "")
+	}
+}
+
+// AtKey reports that the execution reached the named point for a key.
+func AtKey(point, key string) {
+	if h := Handler.Load(); h != nil {
+		(*h)(point, key)
+	}
+}
